@@ -152,3 +152,37 @@ fn spec_enc_as_long(v: Option<i128>) -> Option<([u8; 10], usize)> {
 		_ => None,
 	}
 }
+
+/// Object container file block: count, byte size, data, 16-byte sync marker (null codec).
+/// Returns the block in a fixed buffer (data <= 8 bytes in the harnesses).
+fn spec_container_block(count: i64, data: &[u8], sync: &[u8; 16]) -> ([u8; 48], usize) {
+	let mut out = [0u8; 48];
+	let mut k = 0;
+	let (c, cn) = spec_enc_long(count);
+	let mut i = 0;
+	while i < cn {
+		out[k] = c[i];
+		k += 1;
+		i += 1;
+	}
+	let (l, ln) = spec_enc_long(data.len() as i64);
+	let mut i = 0;
+	while i < ln {
+		out[k] = l[i];
+		k += 1;
+		i += 1;
+	}
+	let mut i = 0;
+	while i < data.len() {
+		out[k] = data[i];
+		k += 1;
+		i += 1;
+	}
+	let mut i = 0;
+	while i < 16 {
+		out[k] = sync[i];
+		k += 1;
+		i += 1;
+	}
+	(out, k)
+}
